@@ -62,12 +62,12 @@ def build(ctx, rng, thorough, want_edits):
                 changed = [h for h in d["p"] if h != "pres" and d["p"][h] != q[h]]
                 # literal-only edits the default policy documents as abstracted: integer literals outside
                 # [-16,16] (bigconst k1/k2) and string literals (strbranch lit)
-                lit = e["kind"] == "edit" and changed and all(h in ("k1", "k2", "lit", "k") for h in changed)
+                lit = e["kind"] == "edit" and changed and all(h in ("k1", "k2", "lit", "k", "ks", "kt") for h in changed)
                 edges.append(("edit", k, fb, fq, {"same": e["same"], "witness": e["witness"], "kind": e["kind"], "litonly": lit,
                                                   "q": q}))
-            elif e["kind"] == "edit" and d["p"]["tpl"] in ("bigconst", "strbranch", "ubig"):
+            elif e["kind"] == "edit" and d["p"]["tpl"] in ("bigconst", "strbranch", "ubig", "bigloop"):
                 changed = [h for h in d["p"] if h != "pres" and d["p"][h] != q[h]]
-                if changed and all(h in ("k1", "k2", "lit", "k") for h in changed):
+                if changed and all(h in ("k1", "k2", "lit", "k", "ks", "kt") for h in changed):
                     edges.append(("litedit", k, fb, uni.base[minigo.key(q)], {"q": q}))
     gen = os.path.join(ctx.scratch, "gen")
     where = uni.files(gen, per_file=250, shuffle=rng.shuffle)
